@@ -176,8 +176,18 @@ def _helper_target(ctx, caller: Func, call: ast.Call) -> Optional[Func]:
 def helper_cases(ctx, hf: Func, call: ast.Call, depth: int) -> Optional[List[Case]]:
     """return expressions of a multi statement helper with their path conditions, parameters replaced by the
     call's arguments; None if the helper uses statements outside if/return/assign/expression"""
+    fx = fx_of(ctx, hf)
+    comp_of: Dict[str, ast.AST] = {}
+    loop_stmts: Set[int] = set()
     for st in walk_no_nested(hf.node):
-        if isinstance(st, ast.stmt) and st is not hf.node and not isinstance(st, _HELPER_OK):
+        if isinstance(st, ast.For):
+            c = _acc_loop(fx, st)
+            if c is None:
+                return None
+            comp_of[c[0]] = c[1]
+            loop_stmts |= {id(x) for x in ast.walk(st)}
+    for st in walk_no_nested(hf.node):
+        if isinstance(st, ast.stmt) and st is not hf.node and not isinstance(st, _HELPER_OK) and id(st) not in loop_stmts:
             return None
     if call.keywords or any(isinstance(a, ast.Starred) for a in call.args):
         return None
@@ -192,7 +202,6 @@ def helper_cases(ctx, hf: Func, call: ast.Call, depth: int) -> Optional[List[Cas
             if p not in defaults:
                 return None
             sub[p] = defaults[p]
-    fx = fx_of(ctx, hf)
     # a path that falls off the end returns None implicitly
     for p in fx.cfg.exit.pred:
         if not isinstance(p.ast, ast.Return):
@@ -205,10 +214,46 @@ def helper_cases(ctx, hf: Func, call: ast.Call, depth: int) -> Optional[List[Cas
         if cn is None or not fx.cfg.is_reachable(cn):
             continue
         conds = [(subst(t, sub), pol) for t, pol in fx.conds(r)]
-        val = subst(fx.x(r.value), sub) if r.value is not None else ast.Constant(value=None)
+        val = fx.x(r.value) if r.value is not None else ast.Constant(value=None)
+        if isinstance(val, ast.Name) and val.id in comp_of:
+            val = copy.deepcopy(comp_of[val.id])
+        elif any(isinstance(n, ast.Name) and n.id in comp_of for n in ast.walk(val)):
+            return None
+        val = subst(val, sub)
         for c2, leaf in split_cases(ctx, hf, val, depth + 1):
             out.append((conds + c2, leaf))
     return out
+
+
+def _acc_loop(fx: 'FX', lp: ast.For):
+    """`ACC = []` ... `for T in IT: [if C: continue] [if D:] ACC.append(E)`  ->  (ACC, [E for T in IT if not C if D])"""
+    body_nodes = [n for st in lp.body for n in ast.walk(st)]
+    if lp.orelse or any(isinstance(n, (ast.For, ast.While, ast.Break, ast.Return, ast.Try, ast.With, ast.Raise)) for n in body_nodes):
+        return None
+    apps = [n for n in body_nodes if isinstance(n, ast.Call) and isinstance(n.func, ast.Attribute) and n.func.attr == 'append'
+            and isinstance(n.func.value, ast.Name) and n.func.value.id in fx.acc and len(n.args) == 1]
+    if len(apps) != 1:
+        return None
+    acc = apps[0].func.value.id
+    # the accumulator is a list initialised once and touched nowhere else
+    dv = fx.flow.defs_of(acc)
+    if len(dv) != 1 or not isinstance(dv[0].value, (ast.List, ast.Call)):
+        return None
+    uses = [n for n in ast.walk(fx.f.node) if isinstance(n, ast.Name) and n.id == acc]
+    if len(uses) > 3 + 0 and any(isinstance(n, ast.Call) and isinstance(n.func, ast.Attribute) and isinstance(n.func.value, ast.Name)
+                                 and n.func.value.id == acc and n is not apps[0] for n in ast.walk(fx.f.node)):
+        return None
+    for st in lp.body:
+        for n in ast.walk(st):
+            if isinstance(n, ast.stmt) and not isinstance(n, (ast.If, ast.Expr, ast.Continue, ast.Assign, ast.Pass)):
+                return None
+    keep = [n.id for n in ast.walk(lp.target) if isinstance(n, ast.Name)]
+    outer = len(fx.conds(lp))
+    conds = fx.conds(apps[0], keep=keep)[outer:]
+    ifs = [t if pol else ast.UnaryOp(op=ast.Not(), operand=t) for t, pol in conds]
+    comp = ast.ListComp(elt=fx.x(apps[0].args[0], keep=keep),
+                        generators=[ast.comprehension(target=copy.deepcopy(lp.target), iter=fx.x(lp.iter), ifs=ifs, is_async=0)])
+    return acc, ast.fix_missing_locations(comp)
 
 
 def split_cases(ctx, func: Func, e: ast.AST, depth: int = 0) -> List[Case]:
@@ -397,12 +442,9 @@ class StaticNames:
     def params(self) -> List[str]:
         return [p for p in (self.init.params[1:] if self.init else []) if p != (self.init.node.args.kwarg.arg if self.init.node.args.kwarg else None)]
 
-    def stores_param(self, name: str) -> Optional[str]:
-        """attribute (or property) of self that __init__ assigns parameter `name` to"""
-        for attr, v in self.store_value.items():
-            if isinstance(v, ast.Name) and v.id == name:
-                return attr
-        return None
+    def stores_param(self, name: str) -> List[str]:
+        """attributes (or properties) of self that __init__ assigns parameter `name` to"""
+        return [attr for attr, v in self.store_value.items() if isinstance(v, ast.Name) and v.id == name]
 
 
 def set_attr_call(c: ast.Call):
